@@ -644,13 +644,16 @@ func c09ReusedInputs(c *core.Ctx, r *core.Rand) {
 		// ... and identities READ from one receive buffer that the caller refills with the next
 		// encoding (same key sizes, other declared types - every second one prohibited)
 		if recvBuf == nil {
-			recvBuf = make([]byte, 391)
+			// a receive buffer larger than one identity: the identity sits at its front, whatever
+			// arrived behind it follows (a reader that treats "much data behind" differently)
+			recvBuf = make([]byte, 391+[]int{0, 100, 513, 1700}[r.Pick(4)])
 		}
 		{
 			k.Cert = rm.KeyCert(s, cr, nil)
 			enc := k.Encode()
-			if len(enc) == len(recvBuf) {
+			if len(enc) == 391 {
 				copy(recvBuf, enc)
+				copy(recvBuf[391:], r.Bytes(len(recvBuf)-391))
 				var kac *keys_and_cert.KeysAndCert
 				rsite := "destination.ReadDestination"
 				c.Call("c09/reused-inputs/read", enc, func() {
